@@ -45,8 +45,10 @@ def _size(obj: Sized) -> int:
         return len(obj)
     except OverflowError:
         # A range with more items than `len()` can count.
-        if isinstance(obj, range) and obj.step == 1:
-            return max(0, obj.stop - obj.start)
+        if isinstance(obj, range):
+            if obj.step > 0:
+                return max(0, -((obj.start - obj.stop) // obj.step))
+            return max(0, -((obj.stop - obj.start) // -obj.step))
         raise
 
 
